@@ -24,7 +24,7 @@ class C03(Prop):
     pid = "C03"
     prop_file = "Props/C03.v"
     module = "Props.C03"
-    gen_deps = ["Table"]
+    gen_deps = ["Table", "StripFn"]
     harness = ("h-core", "hcore")
     nontrivial_rule = ("cases: all 2^(n-1) partitions of short escape-rich inputs (n<=11) and of random grammar inputs (n<=9 quick, 12 thorough); seeded random "
                        "partitions (single-byte, fixed stride, random cuts) of long grammar streams; byte API cut anywhere, text API cut at character boundaries. "
@@ -98,9 +98,32 @@ class C03(Prop):
             cut = rng.randrange(0, len(s) + 1)
             lines.append("sbxcat %s %s %d" % (gen.hexs(s[:cut]), gen.hexs(s[cut:]), rng.randrange(0, 3)))
         yield "extend-next-slice", lines
+        # the strip stream, write_all / write_fmt per chunk: seeded chunkings of grammar streams, and chunks at and
+        # beyond 64 KiB that end inside a sequence or a character (Spec/Strip oracle on the delivered bytes)
+        from .c06 import big_chunk_cases
+        lines = []
+        for i in range(n // 3):
+            s = gen.grammar_stream(rng, valid_utf8=True)
+            if not s:
+                continue
+            cb = set(char_boundaries(s))
+            cuts = [x for x in gen.random_cuts(rng, len(s)) if (i % 2 or x in cb)]
+            chunks = gen.apply_cuts(s, cuts)
+            op = "a" if i % 2 else "f"
+            if op == "f" and not all(is_utf8(c) for c in chunks):
+                op = "a"
+            lines.append("strm %s vec - %s" % (rng.choice(["strip", "never"]), ",".join("%s:%s" % (op, gen.hexs(c)) for c in chunks if c)))
+        yield "stream-chunked-write_all", [l for l in lines if not l.endswith(" - ")]
+        yield "stream-chunks-beyond-64KiB", big_chunk_cases(rng, tier == "thorough")
+
+    def observe(self, ctx, name, lines, results):
+        from .c06 import strm_spec_observe
+        return strm_spec_observe(name, lines, results, ctx["impls"])
 
     def nontrivial(self, line, impl):
         parts = line.split(" ")
+        if parts[0] == "strm":
+            return "1b" in parts[4]
         if parts[0] in ("sbccat", "ssccat"):
             return parts[2] != "-" and impl != parts[1]
         if parts[0] == "sbxcat":
